@@ -134,7 +134,7 @@ def phNotCalled (ph : Nat) : String := if ph ≠ 0 then " ph=notcalled" else ""
 
 /-- the canonical result line of a put (same text as the harness prints) -/
 def putLine (ph : Nat) : PutRes → String
-  | .nodb => "put invalid_args"
+  | .nodb => "put invalid_args" ++ phNotCalled ph
   | .emptyKey => "put invalid_args" ++ phNotCalled ph
   | .readonly => "put readonly" ++ phNotCalled ph
   | .keyErr e => s!"put {keyErrName e}" ++ phNotCalled ph
